@@ -107,7 +107,7 @@ def replay(scn):
             kinds = [(("i" if k % 2 == 0 else "f") if mixed else variant[0])] * len(a["dims"])
             objs.append(A.gamma(a, codec, kinds))
         for form in ("list", "tuple", "datasets"):
-            if form == "datasets" and variant not in ("i", "s", "i@0"):
+            if form == "datasets" and variant not in ("i", "s", "i@0", "mixed"):
                 continue
             before = [A.snapshot(o) for o in objs]
             kw = dict(join=i["join"], sort=i["sort"])
